@@ -271,8 +271,23 @@ def build(func, mod=None):
                     else:
                         if op in COMMUTATIVE:
                             a, c = sorted((a, c), key=lambda x: repr(x.key))
-                        n = Node(op, ins.ty, (a, c), flags or None, ins.dbg)
-                        d.arith.append((g, n))
+                        n = None
+                        if ins.ty in INT_BITS:
+                            # integer identities that hold for every bit pattern and can never
+                            # overflow: x+0, 0+x, x-0, x*1, 1*x  (no floating counterpart: -0.0 + 0.0)
+                            zero = lambda v: v.is_const() and v.cval() == 0
+                            one = lambda v: v.is_const() and v.cval() == 1
+                            if op == "add" and zero(a):
+                                n = c
+                            elif op in ("add", "sub") and zero(c):
+                                n = a
+                            elif op == "mul" and one(a):
+                                n = c
+                            elif op == "mul" and one(c):
+                                n = a
+                        if n is None:
+                            n = Node(op, ins.ty, (a, c), flags or None, ins.dbg)
+                            d.arith.append((g, n))
                 d.env[ins.res] = n
             elif op == "fneg":
                 n = Node("fneg", ins.ty, (val(ins.args[0]),), None, ins.dbg)
@@ -291,8 +306,8 @@ def build(func, mod=None):
                     if op == "sext":
                         v = as_signed(v, a.ty)
                     n = const(ins.ty, wrap_int(v, ins.ty))
-                elif op == "trunc" and a.op == "zext" and a.args[0].ty == ins.ty:
-                    n = a.args[0]  # bool / narrow round trip through a wider integer
+                elif op == "trunc" and a.op in ("zext", "sext") and a.args[0].ty == ins.ty:
+                    n = a.args[0]  # narrow -> wide -> narrow round trip: identity on every bit pattern
                 else:
                     n = Node(op, ins.ty, (a,), None, ins.dbg)
                     d.arith.append((g, n))
